@@ -259,3 +259,24 @@ PROPS["C19"] = {
         {"test": "^TestStatsEqualRecount$", "checks": 15000, "steps": 100, "shards": 14, "timeout": 1200},
     ],
 }
+
+PROPS["C17"] = {
+    "pkg": "c17",
+    "technique": "generated concurrent send plans through the real pacers (real timers) with an order/once/intact oracle per writer and stream and a conservative token-bucket bound at every delivery instant",
+    "level_text": "Each case draws pacer settings, 1-3 streams, 1-4 writer goroutines with planned packets (any header shape, payload 0..1460) and a mid-stream rate change; "
+                  "what reaches the per-stream writers must be an order-preserving, duplicate-free image of what each goroutine had accepted, unaltered, complete once drained; for the "
+                  "token-bucket interceptor cumulative released bits never exceed burst + rate x elapsed. Exploration.",
+    "level_note": "trusts: wall-clock timestamps taken at delivery (>= the tick instant the limiter used, so the bound is conservative); a drain that does not finish within "
+                  "3x the ideal time + 200 intervals is reported inconclusive, not as a violation; packets the bucket can never hold are excluded by construction (listed known finding, reproduced separately)",
+    "assumptions": ["writes go to bound/added streams only", "the pacer stays open until the plan is drained"],
+    "quick": [
+        {"test": "^TestKnownOversizeHeadOfLine$", "timeout": 120},
+        {"test": "^TestPacingInterceptor$", "checks": 25, "shards": 4, "timeout": 400},
+        {"test": "^TestGCCPacers$", "checks": 25, "shards": 3, "timeout": 400},
+    ],
+    "thorough": [
+        {"test": "^TestKnownOversizeHeadOfLine$", "timeout": 120},
+        {"test": "^TestPacingInterceptor$", "checks": 250, "shards": 9, "timeout": 1500},
+        {"test": "^TestGCCPacers$", "checks": 250, "shards": 6, "timeout": 1500},
+    ],
+}
